@@ -686,6 +686,14 @@ func (c *Ctx) evalSliceInit(rel string, g *ssa.Global) *sliceTable {
 }
 
 func isLoadOf(v ssa.Value, g *ssa.Global) bool {
+	if v == ssa.Value(g) {
+		// a table declared as an array: it is indexed through the variable itself
+		if pt, ok := g.Type().Underlying().(*types.Pointer); ok {
+			if _, isArr := pt.Elem().Underlying().(*types.Array); isArr {
+				return true
+			}
+		}
+	}
 	u, ok := v.(*ssa.UnOp)
 	return ok && u.Op == token.MUL && u.X == g
 }
